@@ -177,9 +177,23 @@ type checker struct {
 	cdc            codec.Codec
 	fams           []*family
 	cnt            map[string]float64
+	nsample        map[string]int
 }
 
 func (c *checker) count(k string) { c.cnt[k]++ }
+
+// sample records one really evaluated case per kind (shard 0 only).
+func (c *checker) sample(kind string, v map[string]interface{}) {
+	if c.shard != 0 || c.nsample[kind] >= 1 {
+		return
+	}
+	if c.nsample == nil {
+		c.nsample = map[string]int{}
+	}
+	c.nsample[kind]++
+	v["case"] = kind
+	c.r.Sample(v)
+}
 
 // late: the internal deadline has passed; the run ends with exhaustive=false.
 func (c *checker) late() bool {
@@ -314,6 +328,13 @@ func (c *checker) evalA(chk *libcons.ConsensusChecker, fam *family, shares []*bi
 		fail("evidence:error:VerifyEvidence", "unexpected error %v", err)
 		return
 	}
+	if got == want && len(order) >= 3 && outsider != 0 {
+		if want != 0 {
+			c.sample("a: winner", map[string]interface{}{"shares": sharesStr(shares), "family": fam.Name, "assign": append([]int(nil), assign...), "outsider": outsider, "order": append([]int(nil), order...), "A_holds": sA.String(), "B_holds": sB.String(), "total": total.String(), "real_and_reference_winner": got})
+		} else {
+			c.sample("a: refused", map[string]interface{}{"shares": sharesStr(shares), "family": fam.Name, "assign": append([]int(nil), assign...), "outsider": outsider, "order": append([]int(nil), order...), "A_holds": sA.String(), "B_holds": sB.String(), "total": total.String(), "real": err.Error()})
+		}
+	}
 	switch {
 	case got == want:
 	case want == 0:
@@ -358,11 +379,20 @@ func (c *checker) skipVector(ix []int) bool {
 	return false
 }
 
+// alpha: share alphabet for n validators (thorough adds 7 and 2^64 for n <= 3).
+func (c *checker) alpha(n int) []*big.Int {
+	if c.r.Thorough() && n <= 3 {
+		return append(append([]*big.Int(nil), shareAlpha...), big.NewInt(7), pow2(64))
+	}
+	return shareAlpha
+}
+
 func (c *checker) partA() {
 	maxN := 4
 	vec := 0
 	for n := 1; n <= maxN; n++ {
-		forEachVector(n, len(shareAlpha), func(ix []int) {
+		alpha := c.alpha(n)
+		forEachVector(n, len(alpha), func(ix []int) {
 			if c.skipVector(ix) || c.late() {
 				return
 			}
@@ -372,13 +402,16 @@ func (c *checker) partA() {
 			}
 			shares := make([]*big.Int, n)
 			for i, k := range ix {
-				shares[i] = shareAlpha[k]
+				shares[i] = alpha[k]
 			}
 			snap, _ := snapshotOf(shares)
 			chk := newChecker(snap, c.cdc)
 			fams := c.fams
-			if n == 4 && !c.r.Thorough() {
+			if n == 4 {
 				fams = c.fams[:1]
+				if c.r.Thorough() {
+					fams = []*family{c.fams[0], c.fams[3]}
+				}
 			}
 			for _, fam := range fams {
 				forEachVector(n, 3, func(assign []int) {
@@ -477,6 +510,9 @@ func (c *checker) evalB(chk *libcons.ConsensusChecker, shares []*big.Int, submit
 		return
 	}
 	g := new(big.Int).SetUint64(got)
+	if len(vals) == 4 && vals[0] != vals[3] && vals[3] > 1<<63 {
+		c.sample("b: elected", map[string]interface{}{"shares": sharesStr(shares), "submit": append([]bool(nil), submit...), "outsider": outsider, "estimates": fmt.Sprint(vals), "real": fmt.Sprint(got), "reference_median": med.String()})
+	}
 	switch {
 	case g.Cmp(min) < 0 || g.Cmp(max) > 0:
 		fail("estimate:outside-submitted-range:VerifyGasEstimates", "elected estimate %d lies outside [lowest %s, highest %s] submitted; exact median is %s", got, min, max, med)
@@ -516,7 +552,8 @@ func (c *checker) partB() {
 	}
 	vec := 0
 	for n := 1; n <= 4; n++ {
-		forEachVector(n, len(shareAlpha), func(ix []int) {
+		alpha := c.alpha(n)
+		forEachVector(n, len(alpha), func(ix []int) {
 			if c.skipVector(ix) || c.late() {
 				return
 			}
@@ -526,7 +563,7 @@ func (c *checker) partB() {
 			}
 			shares := make([]*big.Int, n)
 			for i, k := range ix {
-				shares[i] = shareAlpha[k]
+				shares[i] = alpha[k]
 			}
 			snap, total := snapshotOf(shares)
 			chk := newChecker(snap, c.cdc)
@@ -873,6 +910,9 @@ func (in *integ) runEvidence(cs caseC) {
 	ci, _ := w.App.EvmKeeper.GetChainInfo(ctx, ref)
 	ci0, _ := w.App.EvmKeeper.GetChainInfo(base, ref)
 	ref3 := func(s *big.Int) string { return fmt.Sprintf("%s of %s", s, in.total) }
+	if cs.Variant == "flip" && cs.Assign[4] != 0 && sA.Sign() > 0 && sB.Sign() > 0 {
+		in.c.sample("c: "+cs.Kind, map[string]interface{}{"assign_v0_v3_outsider": cs.Assign, "variant": cs.Variant, "A_holds": ref3(sA), "B_holds": ref3(sB), "reference_winner": want, "message_removed": after == nil, "chain_reference_block": fmt.Sprintf("(%d,%s)", ci.ReferenceBlockHeight, ci.ReferenceBlockHash), "queue_length": len(all)})
+	}
 	if want == 0 {
 		if after == nil {
 			fail("attest:removed-without-two-thirds:"+cs.Kind, "message removed from the queue; reference: A holds %s, B holds %s — no value has 2/3", ref3(sA), ref3(sB))
@@ -920,7 +960,7 @@ func (in *integ) partCEvidence() {
 		variants := []string{"direct", "flip", "twice"}
 		for _, variant := range variants {
 			for _, rev := range []bool{false, true} {
-				if kind == "logic-call" && (variant == "twice" || rev) {
+				if kind == "logic-call" && (variant == "twice" || rev) && !in.c.r.Thorough() {
 					continue
 				}
 				forEachVector(5, 3, func(assign []int) {
@@ -1178,12 +1218,9 @@ func main() {
 func run(r *report.Run, shard, nshards int, replayFile string) {
 	stakes := world.StakesOf(2_000_000, 3_000_000, 5_000_000, 5_000_000, 10_000_000)
 	w := world.New(world.Config{Stakes: stakes})
-	if r.Thorough() {
-		shareAlpha = append(shareAlpha, big.NewInt(7), pow2(64))
-	}
 	c := &checker{deadline: r.Deadline(150*time.Second, 25*time.Minute), r: r, shard: shard, nshards: nshards, cdc: w.App.AppCodec(), fams: families(), cnt: map[string]float64{}}
 	r.Rule = "complete products, every element evaluated on the real function and compared with a math/big reference. " +
-		"(a) VerifyEvidence: n=1..4 snapshot validators x shares^n over {1,2,3,5,10^18,2^62,2^80} (thorough: + 7, 2^64; quick: for n=4 the vectors up to renaming of validators) x every assignment to {A,B,none} x a validator outside the snapshot {absent,A,B} x every order of the evidence slice x proof families (4 for n<=3, error-proof for n=4 in the quick tier). " +
+		"(a) VerifyEvidence: n=1..4 snapshot validators x shares^n over {1,2,3,5,10^18,2^62,2^80} (thorough: + 7, 2^64 for n<=3; quick: for n=4 the vectors up to renaming of validators) x every assignment to {A,B,none} x a validator outside the snapshot {absent,A,B} x every order of the evidence slice x proof families (4 for n<=3; n=4: error-proof, thorough + tx-proof without/with receipt). " +
 		"(b) VerifyGasEstimates: the same share vectors x every subset of submitting validators x outsider {absent,present} x every multiset of estimates of that size (1..4 quick, 1..5 thorough) over {1,2,3,2^32,2^63-1,2^63,2^63+1,2^64-2,2^64-1}, ascending and highest-first. " +
 		"(c) real application, 4 snapshot validators with stakes 2,3,5,5 (x10^6; 10 of 15 is exactly 2/3) + 1 bonded validator outside: every assignment of the 5 to {A,B,none} delivered as signed MsgAddEvidence txs (direct / first the other value then this one / twice; ascending and descending order) on the reference-block and the turnstone queue, then CheckAndProcessAttestedMessages; every assignment of the 5 to estimates {none,3,2^63+1,2^64-1} as signed MsgAddMessageGasEstimates, then CheckAndProcessEstimatedMessages, then a second SetElectedGasEstimate and late estimates. " +
 		"(d) every ordered pair of different evidence values from a small separator-aware alphabet: outsider supplies y first, all snapshot validators supply x."
@@ -1201,12 +1238,6 @@ func run(r *report.Run, shard, nshards int, replayFile string) {
 		return
 	}
 	t0 := cpuSeconds()
-	c.partA()
-	t1 := cpuSeconds()
-	c.cnt["cpu_s_part_a"] = t1 - t0
-	c.partB()
-	t2 := cpuSeconds()
-	c.cnt["cpu_s_part_b"] = t2 - t1
 	c.partD()
 	in, err := c.setupInteg(w)
 	if err != nil {
@@ -1217,15 +1248,16 @@ func run(r *report.Run, shard, nshards int, replayFile string) {
 		in.partCEvidence()
 		in.partCEstimates()
 		in.partCIdentity()
-		c.cnt["cpu_s_part_c"] = cpuSeconds() - t2
 	}
+	t1 := cpuSeconds()
+	c.cnt["cpu_s_part_c_d"] = t1 - t0
+	c.partB()
+	t2 := cpuSeconds()
+	c.cnt["cpu_s_part_b"] = t2 - t1
+	c.partA()
+	c.cnt["cpu_s_part_a"] = cpuSeconds() - t2
 	for k, v := range c.cnt {
 		r.Extra[k] = v
-	}
-	if shard == 0 {
-		r.Sample(map[string]interface{}{"part": "a", "shares": []string{"1", "2", "3"}, "assign": []int{0, 1, 1}, "note": "A holds 5 of 6 -> winner A; with assign [1,1,0] A holds 3 of 6 -> refused"})
-		r.Sample(map[string]interface{}{"part": "b", "values": []string{"1", "18446744073709551615"}, "note": "even count, exact median 9223372036854775808"})
-		r.Sample(map[string]interface{}{"part": "c", "kind": "reference-block", "assign": []int{0, 0, 1, 1, 2}, "note": "v2+v3 hold 10 of 15 = exactly 2/3 on A, outsider says B -> A applied"})
 	}
 }
 
